@@ -5,7 +5,6 @@ import (
 	"fmt"
 	"os"
 	"runtime"
-	"strconv"
 	"sync"
 	"sync/atomic"
 	"time"
@@ -20,14 +19,14 @@ import (
 // Close has returned, nothing panics, everything terminates.
 
 type stressCfg struct {
-	P, C     int // producers, consumers
-	N        int // sends per producer
-	Cap      int
-	Closers  int // 0: main closes after the producers are done; k>0: k concurrent closers at a random moment
-	Rounds   int
-	Seed     uint64
-	Procs    int
-	Perturb  bool // random runtime.Gosched() at the verif yield points
+	P, C    int // producers, consumers
+	N       int // sends per producer
+	Cap     int
+	Closers int // 0: main closes after the producers are done; k>0: k concurrent closers at a random moment
+	Rounds  int
+	Seed    uint64
+	Procs   int
+	Perturb bool // random runtime.Gosched() at the verif yield points
 }
 
 type stressVio struct {
@@ -235,5 +234,3 @@ func stressChild(args []string) int {
 	fmt.Println(string(b))
 	return 0
 }
-
-func itoa(i int) string { return strconv.Itoa(i) }
